@@ -78,7 +78,8 @@ def mutants_of(path):
         def visit_FunctionDef(self, node):
             if node.name.startswith("get_complexity") or node.name in ("__repr__", "__str__", "solution_as_matrix", "solution_as_printable", "pretty_print"):
                 return
-            self.generic_visit(node)
+            for st in node.body:  # not the decorators (njit(cache=True)) nor the defaults
+                self.visit(st)
 
         def visit_Compare(self, node):
             if len(node.ops) == 1 and type(node.ops[0]) in CMP and node.left.end_lineno == node.comparators[0].lineno:
@@ -146,6 +147,9 @@ def mutants_of(path):
             self.generic_visit(node)
 
         def visit_Expr(self, node):
+            if isinstance(node.value, ast.Call) and isinstance(node.value.func, ast.Attribute) and isinstance(node.value.func.value, ast.Name) \
+                    and node.value.func.value.id == "logger":
+                return  # logging is not modelled
             if isinstance(node.value, ast.Call):
                 self.stmt(node)
             self.generic_visit(node)
